@@ -310,8 +310,14 @@ class Run:
         listing_before = sorted(p.name for p in (self.root / "d").iterdir())
         pm = {None: None, "ack": TransmissionMode.ACKNOWLEDGED, "unack": TransmissionMode.UNACKNOWLEDGED}[c["put_mode"]]
         msgs = self.messages(c.get("msgs"))
+        fsreq = None
+        if c.get("fsreq"):
+            from spacepackets.cfdp.tlv import FileStoreRequestTlv, MessageToUserTlv
+            from spacepackets.cfdp.tlv.defs import FilestoreActionCode
+            fsreq = [FileStoreRequestTlv(FilestoreActionCode.CREATE_FILE_SNM, "/tmp/newfile.txt")]
+            msgs = (msgs or []) + [MessageToUserTlv(b"hello user")]
         req = PutRequest(self.DST_ID, None if data is None else sp, None if data is None else dgiven, pm, c["put_closure"],
-                         msgs_to_user=msgs)
+                         msgs_to_user=msgs, fs_requests=fsreq)
         self.cur["msgs"] = c.get("msgs")
         if c.get("crc_flag_first_only"):
             # the remote configuration is switched between transactions (C11/C07: nothing may leak from the previous one)
